@@ -55,7 +55,10 @@ class Lexer(object):
 
     @TOKEN(r"[\-\+]?\d+")
     def t_INT(self, t):
-        t.value = int(t.value)
+        try:
+            t.value = int(t.value)
+        except ValueError:  # Python limits the number of digits it converts (4300 by default)
+            raise SyntaxError("Integer literal with {0} digits at position {1} is too long".format(len(t.value), t.lexpos))
         return t
 
     @TOKEN(r'("(\\.|[^"\\])*")|(\'(\\.|[^\'\\])*\')')
